@@ -165,6 +165,18 @@ def rand_handler_history(rng):
     return h
 
 
+def long_backoff_history(rng):
+    """flows mode with a long linear back-off (the wait before the k-th retry grows past half a minute): much time passes
+    between two responses of one sequence without the sequence being over - time-based expiry of the counters must not hand
+    out a fresh budget"""
+    A = rng.choice([3, 4])
+    seqs = ["s1", "s2"][: rng.choice([1, 1, 2])]
+    h = [{"ev": "reset", "mode": "flows", "A": A, "cd": rng.choice([0, 10]), "mult": rng.choice([15, 20]), "ranges": [[500, 599]], "seqs": seqs}]
+    for _ in range(rng.randint(A + 2, 2 * A + 3)):
+        h.append({"ev": "resp", "s": rng.choice(seqs), "st": rng.choice([500, 503])})
+    return h
+
+
 def shrinking_cooldown_history(rng):
     """policy mode: the announced cool-down shrinks from one retry to the next (multiplier 0 or 1 with a client that comes back
     sooner), so a later state write has an earlier expiry than the entry it replaces"""
@@ -403,6 +415,8 @@ def run(ctx):
             return shrinking_cooldown_history(ctx.rng)
         if j in (6, 9, 13):
             return rand_conc_history(ctx.rng)
+        if j in (12, 16):
+            return long_backoff_history(ctx.rng)
         if j in (7, 10, 14, 17, 18):
             return rand_handler_history(ctx.rng)
         return rand_history(ctx.rng, "policy" if (i + j) % 2 == 0 else "flows", T)
